@@ -94,7 +94,41 @@ pub fn check_type(t: u8) -> CheckType {
     }
 }
 
+/// The options structs can be filled in through their public fields or through the setter and
+/// constructor functions; which form a case uses is a fixed function of its parameters, so that both
+/// API forms are part of every run.
+fn api_form(o: &LZMAOptions, a: u64, b: u64) -> bool {
+    (o.dict_size as u64 ^ o.nice_len as u64 ^ a ^ b.wrapping_mul(3)) & 1 == 1
+}
+
+fn filter_config(id: u8, prop: u32) -> lzma_rust2::FilterConfig {
+    use lzma_rust2::FilterConfig as F;
+    match id {
+        0x03 => F::new_delta(prop),
+        0x04 => F::new_bcj_x86(prop),
+        0x05 => F::new_bcj_ppc(prop),
+        0x06 => F::new_bcj_ia64(prop),
+        0x07 => F::new_bcj_arm(prop),
+        0x08 => F::new_bcj_arm_thumb(prop),
+        0x09 => F::new_bcj_sparc(prop),
+        0x0A => F::new_bcj_arm64(prop),
+        0x0B => F::new_bcj_risc_v(prop),
+        _ => F { filter_type: FilterType::LZMA2, property: prop },
+    }
+}
+
 pub fn xz_options(o: &LZMAOptions, check: u8, block: Option<u64>, filters: &[(u8, u32)]) -> XZOptions {
+    if api_form(o, check as u64, filters.len() as u64) {
+        // setter / constructor form of the API
+        let mut x = XZOptions::default();
+        x.lzma_options = o.clone();
+        x.set_check_sum_type(check_type(check));
+        x.set_block_size(block.and_then(NonZeroU64::new));
+        for (id, prop) in filters.iter() {
+            x.filters.push(filter_config(*id, *prop));
+        }
+        return x;
+    }
     let mut x = XZOptions::with_preset(6);
     x.lzma_options = o.clone();
     x.check_type = check_type(check);
@@ -106,6 +140,32 @@ pub fn xz_options(o: &LZMAOptions, check: u8, block: Option<u64>, filters: &[(u8
     x
 }
 
+pub fn lzma2_options(o: &LZMAOptions, chunk: Option<NonZeroU64>) -> LZMA2Options {
+    if api_form(o, chunk.map(|c| c.get()).unwrap_or(0), 1) {
+        let mut x = LZMA2Options::with_preset(3);
+        x.lzma_options = o.clone();
+        x.set_chunk_size(chunk);
+        return x;
+    }
+    LZMA2Options {
+        lzma_options: o.clone(),
+        chunk_size: chunk,
+    }
+}
+
+pub fn lzip_options(o: &LZMAOptions, member: Option<NonZeroU64>) -> LZIPOptions {
+    if api_form(o, member.map(|c| c.get()).unwrap_or(0), 2) {
+        let mut x = LZIPOptions::with_preset(3);
+        x.lzma_options = o.clone();
+        x.set_member_size(member);
+        return x;
+    }
+    LZIPOptions {
+        lzma_options: o.clone(),
+        member_size: member,
+    }
+}
+
 /// Encodes `data` into `sink` following the call history. Returns the sink.
 pub fn encode_to<W: Write>(
     spec: &Spec,
@@ -114,66 +174,63 @@ pub fn encode_to<W: Write>(
     partition: &[usize],
     flush_every: usize,
 ) -> io::Result<W> {
+    encode_with(spec, sink, data.len() as u64, &mut |w: &mut dyn Write| {
+        let mut w = w;
+        write_partitioned(&mut w, data, partition, flush_every)
+    })
+}
+
+/// Builds the writer of `spec` on `sink`, lets `drive` make the write / flush calls, finishes.
+/// `total` is the number of bytes `drive` is going to write (the sized .lzma header needs it).
+pub fn encode_with<W: Write>(spec: &Spec, sink: W, total: u64, drive: &mut dyn FnMut(&mut dyn Write) -> io::Result<()>) -> io::Result<W> {
     match &spec.c {
         Container::LzmaHeaderSized => {
-            let mut w = LZMAWriter::new_use_header(sink, &spec.o, Some(data.len() as u64))?;
-            write_partitioned(&mut w, data, partition, flush_every)?;
+            let mut w = LZMAWriter::new_use_header(sink, &spec.o, Some(total))?;
+            drive(&mut w)?;
             w.finish()
         }
         Container::LzmaHeaderMarker => {
             let mut w = LZMAWriter::new_use_header(sink, &spec.o, None)?;
-            write_partitioned(&mut w, data, partition, flush_every)?;
+            drive(&mut w)?;
             w.finish()
         }
         Container::LzmaRawMarker | Container::LzmaRawMarkerSized => {
             let mut w = LZMAWriter::new_no_header(sink, &spec.o, true)?;
-            write_partitioned(&mut w, data, partition, flush_every)?;
+            drive(&mut w)?;
             w.finish()
         }
         Container::LzmaRawSized => {
             let mut w = LZMAWriter::new_no_header(sink, &spec.o, false)?;
-            write_partitioned(&mut w, data, partition, flush_every)?;
+            drive(&mut w)?;
             w.finish()
         }
         Container::Lzma2 { chunk } => {
-            let opts = LZMA2Options {
-                lzma_options: spec.o.clone(),
-                chunk_size: chunk.and_then(NonZeroU64::new),
-            };
+            let opts = lzma2_options(&spec.o, chunk.and_then(NonZeroU64::new));
             let mut w = LZMA2Writer::new(sink, opts);
-            write_partitioned(&mut w, data, partition, flush_every)?;
+            drive(&mut w)?;
             w.finish()
         }
         Container::Xz { check, block, filters } => {
             let mut w = XZWriter::new(sink, xz_options(&spec.o, *check, *block, filters))?;
-            write_partitioned(&mut w, data, partition, flush_every)?;
+            drive(&mut w)?;
             w.finish()
         }
         Container::Lzip { member } => {
-            let opts = LZIPOptions {
-                lzma_options: spec.o.clone(),
-                member_size: member.and_then(NonZeroU64::new),
-            };
+            let opts = lzip_options(&spec.o, member.and_then(NonZeroU64::new));
             let mut w = LZIPWriter::new(sink, opts);
-            write_partitioned(&mut w, data, partition, flush_every)?;
+            drive(&mut w)?;
             w.finish()
         }
         Container::Lzma2Mt { chunk, workers } => {
-            let opts = LZMA2Options {
-                lzma_options: spec.o.clone(),
-                chunk_size: NonZeroU64::new(*chunk),
-            };
+            let opts = lzma2_options(&spec.o, NonZeroU64::new(*chunk));
             let mut w = LZMA2WriterMT::new(sink, opts, *workers)?;
-            write_partitioned(&mut w, data, partition, flush_every)?;
+            drive(&mut w)?;
             w.finish()
         }
         Container::LzipMt { member, workers } => {
-            let opts = LZIPOptions {
-                lzma_options: spec.o.clone(),
-                member_size: NonZeroU64::new(*member),
-            };
+            let opts = lzip_options(&spec.o, NonZeroU64::new(*member));
             let mut w = LZIPWriterMT::new(sink, opts, *workers)?;
-            write_partitioned(&mut w, data, partition, flush_every)?;
+            drive(&mut w)?;
             w.finish()
         }
     }
